@@ -19,6 +19,10 @@
 (*           found on disk), ncell (chunks of THIS chunking found on disk), *)
 (*           alt (further chunk_sizes entries of the scale, each with       *)
 (*           chunk, st, vox, ncell)], tree (hash of all files)              *)
+(*   tables  label tables of link-mesh-fragments: id -> <<label, fragments>> *)
+(*   meshfiles (per directory) files of the mesh directories: dir, name,    *)
+(*           kind "frag" | "link", st, hash, label, frags; info.mesh = the  *)
+(*           "mesh" key, info.core = the info without it                    *)
 (*   fmt     (Convert events with a sharded destination) per scale the      *)
 (*           .shard files in the abstract form of ShardFormat.tla with the  *)
 (*           payloads replaced by the index of their decoded voxels, and    *)
@@ -63,6 +67,15 @@
 (*   oracle:AllInOneInfoDiffers / oracle:AllInOneVoxelsDiffer               *)
 (*   oracle:StatsReportMissing / StatsChunkCount / StatsByteSize /          *)
 (*   StatsTotals                    scale-stats exit 0 but ...              *)
+(* Mesh commands (growth beyond the listed properties).  C19's "exit 0 =>   *)
+(* written and readable" applies: oracle:SuccessButMissingFile when         *)
+(* mesh-to-precomputed exits 0 without a readable info carrying the named   *)
+(* mesh directory and the fragment, or link-mesh-fragments exits 0 without  *)
+(* a link file per table row listing that row's fragments.  What only the   *)
+(* tool help texts promise is recorded as DRIFT: growth:InfoScalesPreserved *)
+(* (a mesh command leaves the info apart from the mesh key, the chunks and  *)
+(* the other directory alone), growth:MeshKeyStable (the key never changes  *)
+(* once written), growth:LinksNeedKey.                                      *)
 (* Interpretations: see Pipeline.tla; additionally                          *)
 (*  - Convert(v, t): identity for float32 targets (harness only uses        *)
 (*    values float32 represents exactly); for integer targets round to      *)
@@ -163,6 +176,19 @@ SuccessClause(c, S1) ==
     [] c.op = "Rechunk"   -> "ok"
     [] c.op = "Obstruct"  -> "ok"
     [] c.op = "Damage"    -> "ok"
+    [] c.op = "Mesh"      -> Chk(/\ InfoOk(sd) /\ sd.info.mesh = c.m
+                                 /\ \E k \in 1..Len(sd.meshfiles) :
+                                       /\ sd.meshfiles[k].kind = "frag" /\ sd.meshfiles[k].dir = c.m
+                                       /\ sd.meshfiles[k].name = c.code /\ sd.meshfiles[k].st = "ok",
+                                 "oracle:SuccessButMissingFile")
+    [] c.op = "Link"      -> Chk(/\ InfoOk(sd) /\ sd.info.mesh # "none"
+                                 /\ \A r \in 1..Len(Case.tables[c.m]) :
+                                       \E k \in 1..Len(sd.meshfiles) :
+                                          /\ sd.meshfiles[k].kind = "link" /\ sd.meshfiles[k].dir = sd.info.mesh
+                                          /\ sd.meshfiles[k].label = Case.tables[c.m][r][1]
+                                          /\ sd.meshfiles[k].st = "ok"
+                                          /\ sd.meshfiles[k].frags = Case.tables[c.m][r][2],
+                                 "oracle:SuccessButMissingFile")
     [] c.op = "Restore"   -> "ok"
     [] c.op = "Stats"     -> "ok"
     [] c.op = "HandInfo"  -> Chk(sd.fullres = "ok", "oracle:SuccessButMissingFile")
@@ -373,9 +399,36 @@ ContentAgrees(M, S1) ==
            (M[x[1]].chunks[x[2]] = SliceContent(code) /\ Case.svol[code] # 0)
              => ConvOk(Arr(Case.svol[code]), Arr(S1[x[1]].scales[x[2]].vox), S1[x[1]].info.dtype)
 
+\* what the tool help texts promise about the mesh commands (recorded as DRIFT)
+ScalesSame(a, b) ==
+  /\ Len(a.scales) = Len(b.scales)
+  /\ \A j \in 1..Len(a.scales) : a.scales[j].st = b.scales[j].st /\ VoxEq(a.scales[j].vox, b.scales[j].vox)
+GrowthClause(k) ==
+  LET c == Ev[k].cmd
+      b == Before(k)[c.d]
+      a == Ev[k].snap[c.d]
+  IN FirstBad(<<
+       IF c.op \in {"Mesh", "Link"}
+         THEN Chk(/\ a.info.st = b.info.st /\ a.info.core = b.info.core /\ ScalesSame(a, b)
+                  /\ \A d \in TraceDirs \ {c.d} : Before(k)[d].tree = Ev[k].snap[d].tree,
+                  "growth:InfoScalesPreserved")
+         ELSE "ok",
+       Chk((b.info.mesh # "none" /\ a.info.st # "none") => a.info.mesh = b.info.mesh, "growth:MeshKeyStable"),
+       Chk((c.op = "Mesh" /\ b.info.mesh \notin {"none", c.m}) => (Ev[k].exit # 0 /\ a.tree = b.tree),
+           "growth:MeshKeyStable"),
+       Chk((c.op = "Link" /\ Ev[k].exit = 0) => b.info.mesh # "none", "growth:LinksNeedKey") >>)
+
+MeshAgrees(m, sd) ==
+  /\ (m.info.n # 0 => sd.info.mesh = m.info.mesh)
+  /\ {sd.meshfiles[k].name : k \in {j \in 1..Len(sd.meshfiles) : sd.meshfiles[j].kind = "frag"}} = m.frags
+  /\ {sd.meshfiles[k].label : k \in {j \in 1..Len(sd.meshfiles) : sd.meshfiles[j].kind = "link"}}
+        = {p[1] : p \in m.links}
+
 DesignClause(k, r) ==
   LET c == Ev[k].cmd IN
-  FirstBad(<< Chk(Ev[k].exit = r.exit, "design:ExitCode"),
+  FirstBad(<< GrowthClause(k),
+              Chk(Ev[k].exit = r.exit, "design:ExitCode"),
+              Chk(\A d \in TraceDirs : MeshAgrees(r.dirs[d], Ev[k].snap[d]), "design:MeshFiles"),
               Chk(\A d \in TraceDirs : DirAgrees(r.dirs[d], Ev[k].snap[d]), "design:Effect"),
               Chk(\A d \in TraceDirs \ {c.d} : Before(k)[d].tree = Ev[k].snap[d].tree,
                   "design:OtherDirTouched"),
@@ -394,7 +447,7 @@ Adopt(m, sd, k, d) ==
    info |-> IF nobs = 0 THEN NoInfo
             ELSE [type |-> IF m.info.n # 0 THEN m.info.type ELSE "image",
                   enc |-> IF m.info.n # 0 THEN m.info.enc ELSE "raw",
-                  n |-> nobs,
+                  n |-> nobs, mesh |-> sd.info.mesh,
                   sh |-> IF ObsSharded(sd) THEN (IF m.info.n # 0 /\ m.info.sh # "nosh" THEN m.info.sh ELSE "s110")
                          ELSE "nosh"],
    chunks |-> [i \in Scales |->
@@ -403,7 +456,9 @@ Adopt(m, sd, k, d) ==
                        ELSE "obs" \o ToString(k) \o d \o ToString(i))
                  ELSE "absent"],
    mis |-> {},
-   blocked |-> m.blocked]
+   blocked |-> m.blocked,
+   frags |-> {sd.meshfiles[x].name : x \in {j \in 1..Len(sd.meshfiles) : sd.meshfiles[j].kind = "frag"}},
+   links |-> {<<sd.meshfiles[x].label, "obs">> : x \in {j \in 1..Len(sd.meshfiles) : sd.meshfiles[j].kind = "link"}}]
 
 \* ---- behaviour -------------------------------------------------------------------------
 TraceInit ==
